@@ -43,7 +43,7 @@ PROPS = {
         "assumptions": ["the store is quiescent during the visit", "Go channels / sync.WaitGroup behave as documented"],
     },
     "C08": {
-        "runs": [run("snap", 2500, 40000)],
+        "runs": [run("snap", 2500, 40000), run("snap-exh", 2, 60)],
         "level_text": "Theorems for ALL numbers of snapshots, goroutines, programs over Open/Close/GC and ALL schedules of the atomic steps (inductive invariant over a small-step interleaving semantics): no Open succeeds after the count reached zero, the count never leaves zero, each snapshot is retired at most once and exactly once at quiescence, the collector hands lists over in order, once, and a GC pass from any reachable quiescent state collects the whole consecutive retired run. The machine is tied to nitro.go by schedule replay: real goroutines run one at a time, parking at yield points between the atomic operations of Open/Close/collectDead/GC; the model replays the same thread choices and must reach the same yield label after every step, the same results and the same final open/retired sets and lastGCSn.",
         "level_note": "Full at atomic-step granularity under sequentially consistent sync/atomic. The snapshot sets (two skiplists) are treated as atomic sets (C13 is the statement about that). NewIterator/Iterator.Close are Open/Close on the handle.",
         "assumptions": ["sync/atomic operations are sequentially consistent", "skiplist insert/delete on the snapshot sets are atomic (C13)", "a goroutine closes only handles it holds"],
@@ -67,13 +67,13 @@ PROPS = {
         "assumptions": ["at least one writer exists (collection workers are per writer)", "sync/atomic sequentially consistent", "skiplist operations on the store are atomic at this level (C13)"],
     },
     "C16": {
-        "runs": [run("barrier", 2000, 30000)],
+        "runs": [run("barrier", 2000, 30000), run("barrier-exh", 1, 30)],
         "level_text": "Theorem barrier_safe for ALL programs over Acquire/Release(any held token)/FlushSession by any number of goroutines and ALL schedules of the atomic steps (inductive invariant, 17 fields): the reclamation panic is unreachable; destructors run in flush order, each exactly once, with the object of their flush; while a token of a session is held neither that session's flush nor any later one has been destructed. Tied to skiplist/access_barrier.go by schedule replay: real goroutines park at ten yield points between the atomic operations; the model replays the same thread choices and must reach the same label and the same number of destructor calls after EVERY step, the same results, destructor log, queue, freeSeqno and activeSeqno.",
         "level_note": "Full at atomic-step granularity under sequentially consistent atomics, for fewer than 2^30 operations in total (the proof shows the int32 offset trick needs holders + in-flight accessors < 2^30; beyond that the model — and the code — misbehave). The free queue (a skiplist) is treated as an atomic sorted set (C13).",
         "assumptions": ["sync/atomic sequentially consistent; sync.Mutex mutual exclusion", "fewer than 2^30 barrier operations (simultaneous accessors)", "free-queue skiplist operations atomic (C13)"],
     },
     "C17": {
-        "runs": [run("barrier-live", 2000, 30000)],
+        "runs": [run("barrier-live", 2000, 30000), run("barrier-live-exh", 1, 30)],
         "level_text": "Theorem barrier_live for ALL programs and ALL schedules: whenever no call is in progress and every token has been released, the free queue is empty and the destructor has run for every FlushSession so far. The invariant carries the responsibility clause 'a ready queue head implies the try-lock is held or some goroutine is between its queue insert / flag reset and its (re-)examination of the queue'. Regression witness for the original code (lost wake-up) proved by computation. Tie: same schedule replay as C16 with a generator that makes sessions terminate close together; oracle: at quiescence destructor calls = flushes and the queue is empty.",
         "level_note": "Full at atomic-step granularity; same assumptions as C16. That an idle or closed Nitro instance therefore holds no unlinked-but-unfreed nodes additionally uses C07's ledger (checked with the guard allocator).",
         "assumptions": ["as C16"],
